@@ -33,7 +33,9 @@ pub struct Settings { pub len: usize }
 pub enum SettingsError { Exceeded, Malformed, Repeated, InvalidSettingId, InvalidSettingValue }
 
 pub mod frame { pub use super::{Frame, FrameError, PayloadLen}; }   // h3/src/frame.rs names them `frame::…`
+//@ifndef HAVE_ERRORS
 pub struct StreamErrorIncoming { pub opaque: u64 }   // h3::quic::StreamErrorIncoming, content irrelevant here
+//@endif
 //@extract h3/src/frame.rs :: - :: enum FrameStreamError
 //@end
 //@extract h3/src/frame.rs :: - :: enum FrameProtocolError
